@@ -454,14 +454,6 @@ func (e *Exec) nondet(tag string, s smt.Sort, lo, hi *big.Int, kind string) *smt
 	name := fmt.Sprintf("v_%s_%d", sanitize(tag), occ)
 	v := e.ctx.Var(name, s, lo, hi)
 	e.nondets = append(e.nondets, NondetRec{Tag: tag, Occ: occ, Term: v, Kind: kind})
-	if e.cfg.Enc == "bv" && s.K == smt.KInt && (lo != nil || hi != nil) {
-		if lo != nil {
-			e.addPC(e.ctx.Cmp(smt.OLe, e.ctx.Const(s, lo.Uint64()&maskW(s)), v))
-		}
-		if hi != nil {
-			e.addPC(e.ctx.Cmp(smt.OLe, v, e.ctx.Const(s, hi.Uint64()&maskW(s))))
-		}
-	}
 	return v
 }
 
